@@ -181,6 +181,7 @@ func (p *Parser) ReadBytes(n int) ([]byte, error) {
 		p.used = k
 
 		l, err := p.r.Read(p.buf[p.used:])
+		p.used += l
 		if err == io.EOF {
 			if l > 0 {
 				err = nil
@@ -191,7 +192,6 @@ func (p *Parser) ReadBytes(n int) ([]byte, error) {
 		if err != nil {
 			return nil, err
 		}
-		p.used += l
 	}
 
 	res := p.buf[p.pos : p.pos+n]
